@@ -22,7 +22,18 @@ from .boot import NPROC
 _CTX = mp.get_context("fork")
 
 
+def die_with_parent() -> None:
+    """Linux: deliver SIGKILL to this process when its parent dies (no orphaned workers burning CPU)."""
+    try:
+        import ctypes
+        import signal
+        ctypes.CDLL("libc.so.6", use_errno=True).prctl(1, signal.SIGKILL)
+    except Exception:  # pylint: disable=broad-except
+        pass
+
+
 def _worker(conn: Any, fn: Callable[[Any], Any], init: Callable[[], None] | None) -> None:
+    die_with_parent()
     try:
         if os.environ.get("VERIF_DEBUG_HANG"):
             import faulthandler
